@@ -154,11 +154,11 @@ func runC12(e *Env) {
 				return
 			}
 			if rec.Trace() != want {
-				e.Violate("C12", "resubscription-differs", fmt.Sprintf("subscription #%d of the same pipeline delivered [%s]; a first subscription of a freshly built one delivers [%s]", n+1, rec.Trace(), want))
+				c12Violate(e, "resubscription-differs", fmt.Sprintf("subscription #%d of the same pipeline delivered [%s]; a first subscription of a freshly built one delivers [%s]", n+1, rec.Trace(), want))
 			}
 			for i, s := range srcs {
 				if s.Subs-before[i] != wantSubs[i] {
-					e.Violate("C12", "source-subscribe-count", fmt.Sprintf("subscription #%d subscribed source %d %d times; the fresh pipeline subscribed it %d times", n+1, i, s.Subs-before[i], wantSubs[i]))
+					c12Violate(e, "source-subscribe-count", fmt.Sprintf("subscription #%d subscribed source %d %d times; the fresh pipeline subscribed it %d times", n+1, i, s.Subs-before[i], wantSubs[i]))
 				}
 			}
 		}
@@ -176,12 +176,12 @@ func runC12(e *Env) {
 	}
 	for n, rec := range recs {
 		if rec.Trace() != want {
-			e.Violate("C12", "concurrent-subscription-differs", fmt.Sprintf("concurrent subscription #%d delivered [%s]; a fresh pipeline delivers [%s]", n, rec.Trace(), want))
+			c12Violate(e, "concurrent-subscription-differs", fmt.Sprintf("concurrent subscription #%d delivered [%s]; a fresh pipeline delivers [%s]", n, rec.Trace(), want))
 		}
 	}
 	for i, s := range srcs {
 		if s.Subs != k*wantSubs[i] {
-			e.Violate("C12", "source-subscribe-count", fmt.Sprintf("%d concurrent subscriptions subscribed source %d %d times; the fresh pipeline subscribes it %d times per subscription", k, i, s.Subs, wantSubs[i]))
+			c12Violate(e, "source-subscribe-count", fmt.Sprintf("%d concurrent subscriptions subscribed source %d %d times; the fresh pipeline subscribes it %d times per subscription", k, i, s.Subs, wantSubs[i]))
 		}
 	}
 }
@@ -251,7 +251,7 @@ func runC12OpValue(e *Env) {
 			return
 		}
 		if rec.Trace() != want[i] {
-			e.Violate("C12", "operator-value-shared-state", fmt.Sprintf("one %s value applied to %d sources: pipeline over source %d delivered [%s]; a separately built operator delivers [%s]", st.Op, n, i, rec.Trace(), want[i]))
+			c12Violate(e, "operator-value-shared-state", fmt.Sprintf("one %s value applied to %d sources: pipeline over source %d delivered [%s]; a separately built operator delivers [%s]", st.Op, n, i, rec.Trace(), want[i]))
 		}
 	}
 }
@@ -273,4 +273,18 @@ func c12Valid(sc *Scn) bool {
 		}
 	}
 	return len(sc.Sources) > 0
+}
+
+// c12Violate records a C12 violation. When some actor is parked on a mutex at quiescence the run deadlocked
+// inside the library and whatever the differential compared is a consequence of that: the violation is
+// filed under the clause "deadlock" (still a violation; it keeps the known unicast-subject self-deadlock
+// of GroupBy/WindowWhen apart from shared-state findings).
+func c12Violate(e *Env, clause, msg string) {
+	for _, a := range e.K.Actors() {
+		if a.Blocked() && a.PendingKind().String() == "lock" {
+			e.Violate("C12", "deadlock", fmt.Sprintf("actor %s is blocked on a lock at quiescence; %s: %s", a.Site, clause, msg))
+			return
+		}
+	}
+	e.Violate("C12", clause, msg)
 }
